@@ -90,3 +90,5 @@ PROP = {'title': 'Algorithm and container helpers equal their straightforward re
                  'documented beyond what std gives)',
                  'every heterogeneous instantiation is also a compile probe (compile:hetero_<family>): a change that makes it ill-formed '
                  'is reported as a violation']}
+
+PROP['rule'] += ' range::empty / singular / size / begin / end / from_pair for every sequence over vector, list, deque, set, multiset (from_pair also on equal_range pairs).'
